@@ -245,7 +245,16 @@ impl VirtualNode for Peers {
                     normal
                 } else if *dsap == Some(60) {
                     let ident = 0x4000u16 + u16::from(*da);
-                    rc::encode(&RefFrame::Data { da: *sa, sa: *da, dsap: *ssap, ssap: Some(60), fc: 0x08, pdu: vec![0x02, 0x05, 0x00, 0xFF, (ident >> 8) as u8, ident as u8] })
+                    // diagnostics of varying (legal) shape: plain; Ext_Diag set with a device block;
+                    // a status block appended with the Ext_Diag flag clear; other flags, locked by a master
+                    let (hi, lo) = ((ident >> 8) as u8, ident as u8);
+                    let pdu = match (usize::from(*da) + self.answered as usize) % 4 {
+                        0 => vec![0x02, 0x05, 0x00, 0xFF, hi, lo],
+                        1 => vec![0x0A, 0x05, 0x00, 0xFF, hi, lo, 0x04, 0x11, 0x22, 0x33],
+                        2 => vec![0x02, 0x05, 0x00, 0xFF, hi, lo, 0x05, 0x81, 0x00, 0x00, 0x00],
+                        _ => vec![0x00, 0x0C, 0x00, 0x07, hi, lo],
+                    };
+                    rc::encode(&RefFrame::Data { da: *sa, sa: *da, dsap: *ssap, ssap: Some(60), fc: 0x08, pdu })
                 } else {
                     return vec![];
                 }
